@@ -79,7 +79,7 @@ def gen(prop, stream, tier, avoid):
                                 dim=3 if (pooled or kind != "curve") else None)
         objs.append(spec)
     surf_idx = [i for i, s in enumerate(objs) if s["kind"] == "surface"]
-    nops = kn.pick([3, 4, 5, 6, 8, 10, 14])
+    nops = kn.pick([3, 4, 5, 6, 8, 10, 14] + ([20, 28] if tier == "thorough" else []))
     W = {"eval": 3, "eval_list": 1.5, "sample": 2, "delta": 1, "deriv": 3, "insert": 1.5, "remove": 0.8, "refine": 0.6,
          "split": 1, "decompose": 0.6, "tangent": 1, "normal": 0.8, "tessellate": 1.2, "voxelize": 1.2 if pooled else 0.3,
          "cadd": 2.5 if pooled and surf_idx else 0, "ctess": 3 if pooled and surf_idx else 0,
